@@ -809,9 +809,9 @@ func lemmaImpl(lm *Lemma) Expr {
 
 // VerifyLemma: requires (and the induction hypothesis for smaller values of the induction variable) entail ensures, in an arbitrary state.
 func VerifyLemma(P *Program, C *Contracts, lm *Lemma) (res *FuncResult) {
-	con := &Contract{Name: "lemma:" + lm.Name, PkgPath: lm.PkgPath, Props: lm.Props, Trust: lm.Trust, Loops: map[int]*LoopSpec{}}
+	con := &Contract{Name: "lemma:" + lm.Name, PkgPath: lm.PkgPath, Props: lm.Props, Trust: lm.Trust, Loops: map[int]*LoopSpec{}, Mode: lm.Mode}
 	x := NewExec(P, C, nil, con)
-	res = &FuncResult{Name: con.Name, Contract: con, Mode: "int"}
+	res = &FuncResult{Name: con.Name, Contract: con, Mode: lm.Mode.String()}
 	defer func() {
 		if r := recover(); r != nil {
 			switch e := r.(type) {
